@@ -809,6 +809,43 @@ pub fn c06(v: &View) -> Vec<Violation> {
     out
 }
 
+/// the part of C06 that is sound under true concurrency: kill never fails, and after it has
+/// returned (stamp) at most one further handler entry is recorded on an actor that had not begun
+/// to end
+pub fn c06_rt(v: &View) -> Vec<Violation> {
+    let mut out = vec![];
+    for o in v.ops.iter().filter(|o| o.kind == OpKind::Kill && !o.skipped()) {
+        if !matches!(o.res, Some(Res::Ok)) {
+            out.push(viol("C06", "kill-failed", format!("kill() on actor {} returned {:?}", o.a, o.res)));
+        }
+    }
+    for a in 0..v.actors.len() {
+        let av = &v.actors[a];
+        let k = v
+            .ops
+            .iter()
+            .filter(|o| o.a == a && o.kind == OpKind::Kill && matches!(o.res, Some(Res::Ok)) && matches!(o.src, Src::Client(_)))
+            .min_by_key(|o| o.e_seq.unwrap());
+        let Some(k) = k else { continue };
+        let s = k.e_seq.unwrap();
+        if av.end_begin_seq().map(|e| e < s).unwrap_or(false) {
+            continue;
+        }
+        let entries = av.hooks.iter().filter(|h| h.0 > s && matches!(h.2, HookEv::HBegin(_))).count();
+        if entries > 1 {
+            out.push(viol("C06", "handlers-after-kill", format!("actor {a}: kill() returned at stamp {s}; {entries} message handlers were started afterwards")));
+        }
+        if av.panic_seq.is_none() && av.started_ok() && av.run_err.is_none() && v.phase_seq[2].is_some() {
+            if let Some((_, _, killed)) = av.stop_begin {
+                if !killed {
+                    out.push(viol("C06", "killed-flag-false", format!("actor {a}: kill() returned before on_stop began, yet killed=false")));
+                }
+            }
+        }
+    }
+    out
+}
+
 pub fn c06_labels(v: &View, l: &mut Vec<&'static str>) {
     for a in 0..v.actors.len() {
         for k in v.ops.iter().filter(|o| o.a == a && o.kind == OpKind::Kill && matches!(o.res, Some(Res::Ok)) && o.phase == 0) {
